@@ -31,6 +31,9 @@ pub enum UpBehaviour {
     AnswerFrom { nth: u32, delay_ms: u64 },
     /// answer twice
     Dup { gap_ms: u64 },
+    /// the first transmission seen for the key is answered with garbage after `garbage_ms`,
+    /// every other one properly after 10 ms
+    GarbageFirst { garbage_ms: u64 },
     /// a drop pattern over the transmissions of one upstream query: transmission i (from 1)
     /// is answered iff bit i-1 of `mask` is set, after `delays_ms[i-1]` milliseconds
     Pattern { mask: u8, delays_ms: Vec<u64> },
@@ -1032,8 +1035,11 @@ fn add_cache_followups(p: &mut PlanB, r: &mut Rng) {
             continue;
         }
         let slow = *k.pick(&[1200u64, 2500, 4000]);
-        let up = UpBehaviour::Pattern { mask: 0b00011, delays_ms: vec![slow, *k.pick(&[5u64, 20, 200]), 5, 5, 5] };
-        let ttl = *k.pick(&[0u32, 1, 1, 2, 3]);
+        /* the earlier exchange ends late with an answer, or fails while the later one's
+         * answer sits in the cache */
+        let failing = k.chance(0.4);
+        let up = if failing { UpBehaviour::GarbageFirst { garbage_ms: *k.pick(&[150u64, 450, 650, 1350]) } } else { UpBehaviour::Pattern { mask: 0b00011, delays_ms: vec![slow, *k.pick(&[5u64, 20, 200]), 5, 5, 5] } };
+        let ttl = if failing { *k.pick(&[2u32, 3, 5]) } else { *k.pick(&[0u32, 1, 1, 2, 3]) };
         let q = &mut p.queries[i];
         q.up = up.clone();
         q.ans.ttl_mode = 1;
@@ -1045,6 +1051,21 @@ fn add_cache_followups(p: &mut PlanB, r: &mut Rng) {
         t.src_port = port;
         t.id = k.below(65536) as u16;
         t.ttl_boundary = None;
+        if failing {
+            /* the same key again just after the instant the cached answer runs out */
+            for off in [1i64, 350, 900] {
+                if k.chance(0.6) {
+                    let mut f = t.clone();
+                    f.at_ms = t.at_ms + ttl as u64 * 1000;
+                    f.ttl_boundary = Some(off);
+                    port += 1;
+                    f.src_port = port;
+                    f.id = k.below(65536) as u16;
+                    f.up = UpBehaviour::Normal { delay_ms: 10 };
+                    twins.push(f);
+                }
+            }
+        }
         twins.push(t);
     }
     p.queries.extend(twins);
@@ -1181,6 +1202,23 @@ pub fn generate_flood(seed: u64, cookie: bool) -> PlanB {
             let mut q = mk(&mut r, t, x, next_port(), lan, format!("t{}.example", i), T_A, None);
             q.flood = true;
             p.queries.push(q);
+        }
+        {
+            /* sometimes the wall clock is stepped back by more than a whole refill period
+             * right after the flood, and the source floods again */
+            let mut k = Rng::new(seed, "plan-b-flood-backstep");
+            if k.chance(0.3) {
+                t += 2_000;
+                p.clock_jumps.push((t, -(*k.pick(&[600i64, 2_000, 5_000]))));
+                t += 1_000;
+                let m = *k.pick(&[50usize, 300, 1000]);
+                for i in 0..m {
+                    let mut q = mk(&mut r, t + i as u64 / 20, x, next_port(), lan, format!("b{}.example", i), T_A, None);
+                    q.flood = true;
+                    p.queries.push(q);
+                }
+                t += 1_000;
+            }
         }
         /* then silence for longer than any refill period, and one more query */
         t += r.range(600_000, 4_000_000);
